@@ -127,6 +127,12 @@ def _set_vsmall(value):
     return old
 
 
+def _tol(sx, q):
+    """1e-9 for the exact (symbolic) comparison; in doubles the quality of a nearly perfect cell is conditioned no better than
+    ~1e-7 (it is a steep function of tiny angle deviations), so the replay compares relative to the size of the value"""
+    return 1e-9 if sx.sym else 4e-6 * (1 + abs(float(q)))
+
+
 def _cell(cls, pts, idx):
     return cls(pts, list(idx))
 
@@ -164,7 +170,7 @@ def run_renumber(sx, dim, family, rot, neighbour=False):
     _axioms(sx)
     sx.note("perm", perm)
     sx.prove_close(q2, q1, f"{cls.__name__} quality is unchanged by the rotational renumbering {perm} ({family})",
-                   tol=1e-9, key=f"C14:renumber:{cls.__name__}:{family}", info={"perm": perm})
+                   tol=_tol(sx, q1), key=f"C14:renumber:{cls.__name__}:{family}", info={"perm": perm})
     return "renumber"
 
 
@@ -215,7 +221,7 @@ def run_motion(sx, dim, family, kind, neighbour=False, inplace=False):
     _axioms(sx)
     sx.prove_close(q2, q1, f"{cls.__name__} quality is unchanged by {kind} ({family}"
                    f"{', neighbour' if neighbour else ''}{', same cell object re-read' if inplace else ''})",
-                   tol=1e-9, key=f"C14:{kind}:{cls.__name__}:{family}{':inplace' if inplace else ''}")
+                   tol=_tol(sx, q1), key=f"C14:{kind}:{cls.__name__}:{family}{':inplace' if inplace else ''}")
     return "motion"
 
 
@@ -237,11 +243,11 @@ def run_stretch(sx):
     sx.reach("stretch")
     _axioms(sx)
     for d, q in enumerate(qs):
-        sx.prove(q >= cube - sx.const(1e-12), f"stretching the cube along direction {d} never lowers the quality value",
+        sx.prove(q >= cube - sx.const(1e-12 if sx.sym else 1e-6), f"stretching the cube along direction {d} never lowers the quality value",
                  f"C14:stretch:monotone:{d}")
-    sx.prove_close(qs[1], qs[0], "stretching along y raises the value as much as stretching along x", tol=1e-9,
+    sx.prove_close(qs[1], qs[0], "stretching along y raises the value as much as stretching along x", tol=_tol(sx, qs[0]),
                    key="C14:stretch:direction:y")
-    sx.prove_close(qs[2], qs[0], "stretching along z raises the value as much as stretching along x", tol=1e-9,
+    sx.prove_close(qs[2], qs[0], "stretching along z raises the value as much as stretching along x", tol=_tol(sx, qs[0]),
                    key="C14:stretch:direction:z")
     # strictly rises for a real stretch
     if sx.sym:
